@@ -10,6 +10,9 @@ word preservation / width / idempotence over all strings are value-level laws an
         triple quote, trailing backslash)
   C20.4 every textwrap call passes break_long_words=False and break_on_hyphens=False
   C20.5 Metadata.doc: leading, else trailing, else detached comments, else ""
+  C20.6 wrap(): the first line is cut off with `text[len(first):]`, so every rewrite of `text` made before that slice must change the head
+        of `text` by exactly what was appended to `first` (sibling agreement of the two "blank line after a colon" sites); a rewrite that
+        consumes a variable number of characters, or inserts something else than `first` received, makes the slice drop or keep characters
 """
 from __future__ import annotations
 
@@ -275,6 +278,62 @@ def check_wrap_and_doc(report):
              "comment selection order leading > trailing > detached > ''")
 
 
+def check_wrap_slice(report):
+    r = report.rule("C20.6", "wrap(): rewrites of `text` before `text[len(first):]` mirror what was appended to `first`", floor=1)
+    m = pm()
+    fi = m.func("gapic.utils.lines.wrap")
+    fn, p = fi.node, fi.module.path
+    TEXT = fn.args.args[0].arg
+    sl = [n for n in ast.walk(fn) if isinstance(n, ast.Assign) and pmatch(f"{TEXT}[len(_F_):]", n.value) is not None and ast.unparse(n.targets[0]) == TEXT]
+    r.need(len(sl) == 1, "wrap: text = text[len(first):]", f"{len(sl)} found")
+    FIRST = pmatch(f"{TEXT}[len(_F_):]", sl[0].value)["_F_"]
+    # appends to `first` under an endswith test:  if first.endswith(L): first += X
+    appends = {}
+    for n in ast.walk(fn):
+        if isinstance(n, ast.If) and n.lineno < sl[0].lineno:
+            b = pmatch(f"{FIRST}.endswith(_ANYL_)", n.test)
+            if b is not None and len(n.body) == 1 and isinstance(n.body[0], ast.AugAssign) and ast.unparse(n.body[0].target) == FIRST \
+                    and isinstance(n.body[0].op, ast.Add) and isinstance(n.body[0].value, ast.Constant):
+                appends[ast.literal_eval(b["_ANYL_"])] = n.body[0].value.value
+    subs = [n for n in fn.body if isinstance(n, ast.Assign) and ast.unparse(n.targets[0]) == TEXT and isinstance(n.value, ast.Call)
+            and ast.unparse(n.value.func) == "re.sub" and n.lineno < sl[0].lineno]
+    r.need(len(subs) >= 1 and appends, "wrap: re.sub on text before the slice, and `if first.endswith(..): first += ..`", f"{len(subs)} subs, {len(appends)} appends")
+    for st in subs:
+        c = st.value
+        r.instance(ast.unparse(c)[:90])
+        if not (len(c.args) == 3 and isinstance(c.args[0], ast.Constant) and isinstance(c.args[1], ast.Constant) and ast.unparse(c.args[2]) == TEXT):
+            r.need(False, "wrap: re.sub(<literal>, <literal>, text)", ast.unparse(c)[:90])
+        pat, rep = c.args[0].value, c.args[1].value
+        tree = list(sre_parser.parse(pat))
+        lo, hi = sre_parser.parse(pat).getwidth()
+        if lo != hi:
+            r.violation(p, c.lineno, f"wrap: {ast.unparse(c)[:90]}",
+                        f"the pattern {pat!r} consumes between {lo} and {hi if hi < 1 << 20 else 'unboundedly many'} characters at the end of the first line, "
+                        f"while `{FIRST}` is only ever extended by a fixed string ({appends}); `{TEXT}[len({FIRST}):]` then cuts at the wrong place "
+                        f"and characters of the second line are dropped (or of the first line duplicated)")
+            continue
+        lits = []
+        i = 0
+        while i < len(tree) and str(tree[i][0]) == "LITERAL":
+            lits.append(chr(tree[i][1]))
+            i += 1
+        L = "".join(lits)
+        tail_ok = i == len(tree) - 1 and str(tree[i][0]) == "SUBPATTERN" and sre_parser.SubPattern(None, tree[i][1][3]).getwidth() == (1, 1) if i < len(tree) else False
+        if not (L and tail_ok):
+            r.need(False, "wrap: colon re.sub shape <literal><one captured char>", pat)
+        X = appends.get(L)
+        r.check(X is not None and _expand(rep) == L + X + "\x00", p, c.lineno,
+                f"wrap: {ast.unparse(c)[:90]}",
+                f"the substitution turns {L!r} into {_expand(rep)[:-1]!r} at the end of the first line, but `{FIRST}` is extended by {X!r} when it ends with "
+                f"{L!r} (appends: {appends}); the two must agree or `{TEXT}[len({FIRST}):]` cuts at the wrong place")
+
+
+def _expand(rep: str) -> str:
+    """a replacement template with \\1 replaced by NUL and escapes decoded"""
+    out = rep.replace("\\1", "\x00").replace("\\g<1>", "\x00")
+    return out.replace("\\n", "\n")
+
+
 def run(report: core.Report):
     report.explanation = ("Regex-AST analysis of the three substitutions of fix_whitespace, CFG placement of the sanitiser guards in rst(), a text-taint "
                           "walk of every comment-derived hole in the library skeletons (token context via tokenize on the skeleton), and keyword "
@@ -284,3 +343,4 @@ def run(report: core.Report):
     check_rst(report)
     check_taint(report, Lib(), report.tier)
     check_wrap_and_doc(report)
+    check_wrap_slice(report)
